@@ -164,7 +164,7 @@ def build_model(case):
     m.add((), kind="root")
     pending_links = []
 
-    def project_parts(path, cfg, node, depth, njobs_above, nproj_above):
+    def project_parts(path, node, depth, njobs_above, nproj_above):
         m.add(path + (".signac",), kind="meta")
         ws = path + ("workspace",)
         m.add(ws, kind="ws", ws_of=path)
@@ -190,8 +190,8 @@ def build_model(case):
             else:
                 cfg = int(node.get("cfg", 0)) % len(CONFIGS)
                 m.add(path, kind="proj", proj=True, cfg=cfg, node_depth=depth, njobs_above=njobs_above,
-                      nproj_above=nproj_above, via="ws" if in_ws else "sub")
-                project_parts(path, cfg, node, depth, njobs_above, nproj_above)
+                      nproj_above=nproj_above)
+                project_parts(path, node, depth, njobs_above, nproj_above)
 
     def workspace(nodes, ws, owner, depth, njobs_above, nproj_above):
         used = set()
@@ -210,7 +210,7 @@ def build_model(case):
                 is_proj = node.get("proj") is not None
                 cfg = (int(node["proj"]) % (len(CONFIGS) - 1)) + 1 if is_proj else None  # never via signac.init here
                 m.add(path, kind="job", job=jid, bare=bool(node.get("bare")), sp=_sp(node), proj=is_proj, cfg=cfg,
-                      node_depth=depth, njobs_above=njobs_above, nproj_above=nproj_above, via="jobself")
+                      node_depth=depth, njobs_above=njobs_above, nproj_above=nproj_above)
                 m.jobs.append(path)
                 reserved = set(JOB_RESERVED)
                 if is_proj:
@@ -396,7 +396,7 @@ def run_case(case, ctx):
 
 def _run_tree(case, ctx, m, root, signac):
     mms = []
-    cl = {"search_false", "nonexistent"}
+    cl, nontrivial = classify(m)
     mms.extend(materialise(m, root))
     P = lambda t: os.path.join(root, *t)  # noqa: E731
     spell = ["", "/", "/."][int(case.get("spell", 0)) % 3]
@@ -419,9 +419,6 @@ def _run_tree(case, ctx, m, root, signac):
                 mms.append(Mismatch(det + "_wrong", f"get_project({shown}, search={search}) returned {os.path.relpath(_rp(got.path), root)}, expected {'/'.join(want) or '.'}"))
         want = m.expect_job(lex)
         st_, got = _call(lambda: signac.get_job(arg))
-        if st_ == "ok":
-            # the regex view of the path must agree with the model (domain sanity)
-            pass
         if st_ == "exc":
             mms.append(Mismatch("get_job_exception", f"get_job({shown}) raised {got}"))
         elif want is None:
@@ -480,8 +477,6 @@ def _run_tree(case, ctx, m, root, signac):
 
     # 3. init_project on every existing project: returned unchanged
     projects = [p for p in m.order if m.dirs[p]["proj"]]
-    if projects:
-        cl.add("init_existing")
     before = fsutil.snapshot(root)
     for i, p in enumerate(projects):
         arg = P(p)
@@ -537,33 +532,33 @@ def _run_tree(case, ctx, m, root, signac):
             if m.dirs[q]["kind"] not in ("meta",):
                 query(q, P(q), "abs after init_project(%s)" % name)
 
-    # ---- classification ----------------------------------------------------
+    return {"mismatches": mms, "classes": sorted(cl), "nontrivial": nontrivial}
+
+
+def classify(m):
+    """Class labels and non-triviality, from the model alone (before anything is executed)."""
+    cl = {"search_false", "nonexistent"}
     nontrivial = False
     for p in m.order:
         rec = m.dirs[p]
-        if rec.get("node_depth", 0) >= 4:
+        if rec["node_depth"] >= 4:
             cl.add("depth>=4")
-        if rec["kind"] in ("proj", "job") and rec["proj"] and rec["kind"] == "proj":
+        if rec["kind"] == "proj":
+            cl.add("init_existing")
             if rec["nproj_above"] >= 1:
+                # >= 2 projects on one root-to-leaf chain
                 nontrivial = True
-                # which container separates it from the enclosing project?
-                if _inside_job(m, p):
-                    cl.add("nested_in_job")
-                else:
-                    cl.add("nested_in_subdir")
+                cl.add("nested_in_job" if _inside_job(m, p) else "nested_in_subdir")
         if rec["kind"] == "job":
             if rec["proj"]:
-                cl.add("jobdir_is_project")
-                cl.add("nested_in_job")
+                # the job directory is itself a project inside its owner: also a 2-project chain
+                cl.update(("jobdir_is_project", "nested_in_job", "init_existing"))
                 nontrivial = True
             if rec["njobs_above"] >= 1:
                 cl.add("two_ids_on_path")
     if m.links:
         cl.add("symlinked_job")
-    for j in m.jobs:
-        if any(m.dirs[q]["proj"] and len(q) > len(j) and q[: len(j)] == j and m.dirs[q]["kind"] != "dir" for q in m.order):
-            nontrivial = True
-    return {"mismatches": mms, "classes": sorted(cl), "nontrivial": nontrivial}
+    return cl, nontrivial
 
 
 def _inside_job(m, p):
@@ -707,5 +702,5 @@ def run(ctx):
     if ctx.worker == 0:
         for c in REPRESENTATIVES:
             ctx.apply(c)
-    n = 260 if ctx.tier == "quick" else 1500
+    n = 260 if ctx.tier == "quick" else 1100
     drive(ctx, case_strategy(), n, ctx.apply)
